@@ -36,6 +36,10 @@ func registrationClosure(w *World) map[*FuncInfo]string {
 			base[fi] = fi.Name()
 		}
 	}
+	// the registration entry itself (it may have handed all the literals to factory helpers)
+	if add := w.Fn(w.Godi, "(*collection).addService"); add != nil {
+		base[add] = add.Name()
+	}
 	return w.HelperClosure(base)
 }
 
@@ -116,6 +120,21 @@ func ruleDescriptorImmutable(w *World, r *Report, rule string) {
 		if id := rootIdent(s.base); id != nil {
 			if o, isVar := info.ObjectOf(id).(*types.Var); isVar && !o.IsField() {
 				_, in := reg[s.fi]
+				// an element of a list: judged like the list it is taken from
+				id2 := id
+				ast.Inspect(s.fi.Decl.Body, func(x ast.Node) bool {
+					if rs, ok := x.(*ast.RangeStmt); ok && rs.Value != nil {
+						if vid, ok := rs.Value.(*ast.Ident); ok && info.Defs[vid] == o {
+							if rid := rootIdent(rs.X); rid != nil {
+								if ro, ok := info.ObjectOf(rid).(*types.Var); ok && !ro.IsField() {
+									o, id2 = ro, rid
+								}
+							}
+						}
+					}
+					return true
+				})
+				id = id2
 				switch {
 				case !isParamOrRecv(s.fi, info, o) && freshExprIn(s.fi, id, 2):
 					ok, why = true, "the descriptor is fresh in the writing function"
